@@ -60,6 +60,8 @@ pub enum Req {
     IterMut(usize, bool),
     FmtMut(usize),
     CStrFmtMut(usize),
+    /// typed allocate_slice(n) followed by the typed shrink_slice to m elements
+    ShrinkLast(Ty, usize, usize),
     /// alloc_try_with / alloc_try_with_mut (inherent on Bump and BumpScope): closure result, payload shape
     TryWith(bool, u8),
 }
@@ -69,7 +71,7 @@ impl Req {
         matches!(self, Req::IterMut(..) | Req::FmtMut(_) | Req::CStrFmtMut(_))
     }
     fn scope_level(&self) -> bool {
-        !matches!(self, Req::Layout(..) | Req::Sized(_) | Req::Slice(..) | Req::SliceFor(..) | Req::PrepareCommit(..) | Req::Reserve(_))
+        !matches!(self, Req::Layout(..) | Req::Sized(_) | Req::Slice(..) | Req::SliceFor(..) | Req::PrepareCommit(..) | Req::Reserve(_) | Req::ShrinkLast(..))
     }
 }
 
@@ -95,9 +97,11 @@ pub enum Entry {
     DynCore,
     /// the generic `Allocator::allocate(Layout)` (only for layout-level requests)
     AllocatorApi,
+    /// `WithoutDealloc(&BumpScope)`: forwards everything except deallocation (typed-level requests only)
+    WoDeallocScope,
 }
 
-const ENTRIES: [Entry; 11] = [
+const ENTRIES: [Entry; 12] = [
     Entry::ScopeInherent,
     Entry::BumpInherent,
     Entry::RefBump,
@@ -109,6 +113,7 @@ const ENTRIES: [Entry; 11] = [
     Entry::DynMutCoreScope,
     Entry::DynCore,
     Entry::AllocatorApi,
+    Entry::WoDeallocScope,
 ];
 
 fn mk<T: Copy>(seed: u64, idx: usize) -> T {
@@ -319,6 +324,23 @@ fn typed_req<B: BumpAllocatorTyped + ?Sized>(b: &B, req: &Req, try_: bool, seed:
                 }
             }
         }),
+        Req::ShrinkLast(ty, n, m) => with_ty!(*ty, T => {
+            let sz = std::mem::size_of::<T>();
+            let p = t!(b.try_allocate_slice::<T>(*n), b.allocate_slice::<T>(*n));
+            let m = (*m).min(*n);
+            unsafe {
+                for i in 0..*n {
+                    p.add(i).write(mk::<T>(seed, i));
+                }
+                let r = b.shrink_slice::<T>(p, *n, m);
+                let q = r.unwrap_or(p);
+                let addr = q.cast::<u8>().as_ptr() as usize;
+                // the surviving prefix, and whether the call reported a (possibly equal) new pointer
+                let mut bytes = std::slice::from_raw_parts(addr as *const u8, m * sz).to_vec();
+                bytes.push(r.is_some() as u8);
+                Out { ok: true, off: if m * sz == 0 { None } else { Some(addr - base) }, bytes }
+            }
+        }),
         Req::Reserve(n) => {
             if try_ {
                 if b.try_reserve(*n).is_err() {
@@ -424,7 +446,7 @@ where
                 let b: &Bump<A, S<MA, UP, GA>> = bump;
                 scope_req!(b, req, try_, seed, base)
             }
-            Entry::ScopeInherent | Entry::AllocatorApi => {
+            Entry::ScopeInherent | Entry::AllocatorApi | Entry::WoDeallocScope => {
                 let s: &BumpScope<'_, A, S<MA, UP, GA>> = bump.as_scope();
                 scope_req!(s, req, try_, seed, base)
             }
@@ -461,8 +483,9 @@ where
             let d: &dyn BumpAllocatorCore = bump.as_scope();
             typed_req(d, req, try_, seed, base)
         }
+        Entry::WoDeallocScope => typed_req(&bump_scope::WithoutDealloc(bump.as_scope()), req, try_, seed, base),
         Entry::AllocatorApi => {
-            if matches!(req, Req::PrepareCommit(..) | Req::Reserve(_)) {
+            if matches!(req, Req::PrepareCommit(..) | Req::Reserve(_) | Req::ShrinkLast(..)) {
                 typed_req(bump.as_scope(), req, try_, seed, base)
             } else if seed & 1 == 0 {
                 allocator_api(&*bump, req, base)
@@ -512,8 +535,9 @@ fn decode_req(r: &Rec, remaining: usize) -> Req {
         let sz = with_ty!(t, T => std::mem::size_of::<T>()).max(1);
         (n / sz).min(2000)
     };
-    match r.b(0) % 29 {
+    match r.b(0) % 31 {
         27 | 28 => Req::TryWith(r.b(8) % 3 != 0, r.b(9)),
+        29 | 30 => Req::ShrinkLast(ty, n_ty(ty).min(400), r.b(8) as usize % 12),
         0 | 1 => Req::Alloc(ty),
         2 => Req::AllocWith(ty),
         3 => Req::AllocDefault(ty),
@@ -589,7 +613,7 @@ where
             }
         }
         // the generic Allocator API has no panicking form and only serves layout-level requests
-        let fix = |e: Entry, req: &Req| -> Entry { if e == Entry::AllocatorApi && (req.scope_level() || req.needs_mut()) { Entry::ScopeInherent } else { e } };
+        let fix = |e: Entry, req: &Req| -> Entry { if matches!(e, Entry::AllocatorApi | Entry::WoDeallocScope) && (req.scope_level() || req.needs_mut() || matches!(req, Req::TryWith(..))) { Entry::ScopeInherent } else { e } };
         let (p, q) = (fix(p, &req), fix(q, &req));
         let seed = r.u64(8);
         let what = format!("{req:?} via {p:?}(try={try_p}) | {q:?}(try={try_q})");
